@@ -159,7 +159,7 @@ class Core:
             f()
         except Exception:
             raise Expected()
-        raise Violation("library accepted %s that the list-of-rows model rejects (IndexError)" % what)
+        raise Violation("library accepted %s that the list-of-rows model rejects" % what)
 
     def run_write(self, f, empty):
         """empty selection: library may raise or no-op."""
@@ -217,6 +217,40 @@ class Core:
         self.a[i, s] = val
         self.m[i][s] = val
         return False
+
+    def op_refused_write(self, op):
+        """A write whose VALUE cannot fit the selection (two or more values, not as many as there are selected cells):
+        numpy refuses it for every row of the model, so the library has to refuse it as well - and a refused write may
+        not have written anything (step() compares every view with the untouched model afterwards)."""
+        kind = op["kind"]
+        if kind == "row_slice":
+            i, s_ = op["i"], sl(op["sl"])
+            n_sel = len(self.m[i][s_])
+            val = self.A(list(range(50, 50 + n_sel + op["extra"]))) if not self.vec else \
+                self.A([[50 + k, 60 + k] for k in range(n_sel + op["extra"])])
+            if n_sel + op["extra"] < 2 or n_sel == 0:
+                return True
+            self.lib_must_raise(lambda: self.a.__setitem__((i, s_), val), "a row-slice write with %d values for %d cells"
+                                % (len(val), n_sel))
+        elif kind == "mask":
+            flat = np.concatenate(self.m)
+            if self.vec:
+                return True
+            mm = [r > op["thr"] for r in self.m]
+            n_sel = int(sum(int(x.sum()) for x in mm))
+            if n_sel == 0 or n_sel + op["extra"] < 2:
+                return True
+            mask = ra.RaggedArray([x.copy() for x in mm])
+            val = self.A(list(range(50, 50 + n_sel + op["extra"])))
+            self.lib_must_raise(lambda: self.a.__setitem__(mask, val), "a mask write with %d values for %d cells"
+                                % (len(val), n_sel))
+        else:
+            i = op["i"]
+            if self.vec:
+                return True
+            j = op["j"] % len(self.m[i])
+            self.lib_must_raise(lambda: self.a.__setitem__((i, j), [1, 2, 3]), "three values written to one cell")
+        return True
 
     def op_set_2d(self, op):
         rows = self.rows_of(op["rows"])
@@ -339,6 +373,9 @@ class Core:
         """operand: scalar or same-structure RaggedArray (+ its model)."""
         if op["other"] == "scalar":
             return op["s"], [op["s"]] * len(self.m)
+        if op["other"] == "self":
+            # the array combined with ITSELF (a + a, a -= a, a == a): one object on both sides
+            return self.a, [r.copy() for r in self.m]
         rng = np.random.RandomState(op["seed"])           # seed drawn by Hypothesis
         om = [arr(rng.randint(1, 5, size=r.shape), self.dtype) for r in self.m]
         return ra.RaggedArray([r.copy() for r in om]), om
@@ -692,6 +729,17 @@ def make_machine(hooks):
             self.do({"op": "set_mask", "thr": thr, "cmp": data.draw(st.sampled_from(["lt", "gt", "eq", "ge"])),
                      "mask_from": data.draw(st.sampled_from(["compare", "model"])), "v": v})
 
+        @precondition(lambda self: self.alive())
+        @rule(data=st.data())
+        def refused_write(self, data):
+            m = self.core.m
+            kind = data.draw(st.sampled_from(["row_slice", "mask", "cell"]))
+            i = data.draw(st.integers(-len(m), len(m) - 1))
+            flat = np.concatenate(m).ravel()
+            self.do({"op": "refused_write", "kind": kind, "i": i, "sl": self.col_slice(data),
+                     "extra": data.draw(st.sampled_from([1, 2, -1])), "j": data.draw(st.integers(0, 5)),
+                     "thr": data.draw(st.sampled_from(sorted(set(flat.tolist())) + [-1000]))})
+
         @precondition(lambda self: self.alive() and len(self.core.m) < 9)
         @rule(data=st.data())
         def append(self, data):
@@ -707,7 +755,7 @@ def make_machine(hooks):
         @precondition(lambda self: self.alive())
         @rule(data=st.data())
         def iop(self, data):
-            other = data.draw(st.sampled_from(["scalar", "ragged"]))
+            other = data.draw(st.sampled_from(["scalar", "ragged", "ragged", "self"]))
             s = data.draw(st.integers(-3, 3)) if self.core.dtype == "int64" else data.draw(st.integers(-6, 6)) / 2
             self.do({"op": "iop", "name": data.draw(st.sampled_from(["add", "sub", "mul"])), "other": other, "s": s,
                      "seed": data.draw(st.integers(0, 10 ** 6))})
@@ -723,7 +771,9 @@ def make_machine(hooks):
         @rule(data=st.data())
         def binop(self, data):
             name = data.draw(st.sampled_from(BINOPS))
-            other = data.draw(st.sampled_from(["scalar", "ragged"]))
+            other = data.draw(st.sampled_from(["scalar", "ragged", "ragged", "self"]))
+            if other == "self" and name not in ("add", "sub", "mul", "eq", "ne", "lt", "le", "gt", "ge"):
+                other = "ragged"          # a / a, a % a, a ** a meet the zeros of the data
             s = data.draw(st.integers(1, 4))
             if self.core.dtype == "float64":
                 s = float(s) if name != "pow" else 2.0
